@@ -194,6 +194,29 @@ def run_tlc(workdir: str, module: str, cfg: str | None = None, *, workers: int |
     return r
 
 
+def definition_hits(stdout: str, module: str, tla_text: str, names: list) -> dict:
+    """Vacuity guard for specs whose Next cannot be split into named sub-actions: for each operator name,
+    the largest evaluation count that `-coverage 1` reports for an expression inside its definition."""
+    defs = [(m.start(), m.group(1)) for m in re.finditer(r"^([A-Za-z_][A-Za-z0-9_]*)(?:\([^)]*\))?\s*==", tla_text, re.M)]
+    lines = tla_text.count("\n") + 2
+    starts = []
+    for pos, name in defs:
+        starts.append((tla_text.count("\n", 0, pos) + 1, name))
+    starts.sort()
+    ranges = {}
+    for i, (ln, name) in enumerate(starts):
+        end = starts[i + 1][0] if i + 1 < len(starts) else lines
+        ranges.setdefault(name, (ln, end))
+    hits = {n: 0 for n in names}
+    for m in re.finditer(r"line (\d+), col \d+ to line \d+, col \d+ of module %s(?: \([\d ]+\))?: (\d+)" % re.escape(module), stdout):
+        ln, cnt = int(m.group(1)), int(m.group(2))
+        for n in names:
+            a, b = ranges.get(n, (0, 0))
+            if a <= ln < b and cnt > hits[n]:
+                hits[n] = cnt
+    return hits
+
+
 def _tail(s: str, n: int = 40) -> str:
     return "\n".join(s.splitlines()[-n:])
 
